@@ -12,7 +12,7 @@ RULE = ('random (pipe, data, model) topologies with product ≤ 12, 1–2 blocks
         'iteration, in-memory and directory mode, compute_inverses on/off: on every rank the saved state is compared '
         'with the factors held by each layer\'s inverse worker; after load the holders (factor workers) and their '
         'second-order data are checked; files on disk are listed and read back; the trace matcher checks that all ranks '
-        'take part in the same collectives; continued gradients are compared with the unsharded reference implementing '
+        'take part in the same collectives; every rank\'s issued collectives (training, steps, object gather and barriers of save/load) are compared exactly with the projection of the Lean script KV.NeoxS; continued gradients are compared with the unsharded reference implementing '
         'the C09 load semantics (model-parallel degree 1; degree > 1 is known finding F2); non-trivial = ≥2 ranks'
         '; float32 inverses with float64 factors; in-place roll-back histories (checkpoint, train, checkpoint, load the first into the same object, train, checkpoint at the same step count) with the truth recomputed per checkpoint; checkpoints right after a step that refreshed factors but not eigendecompositions; uneven pipeline splits (18 and 2 layers per stage); several inverse workers saving into one directory with file-system calls as scheduling points')
 TRUSTED = [
@@ -24,6 +24,7 @@ ASSUMPTIONS = ['torch.save/torch.load round-trip tensors exactly']
 PARTIAL = ['resume equivalence is checked/proved for model-parallel degree 1; for degree > 1 replicated factors are '
            'restored only on factor workers (finding F2)', 'stub topology']
 TOL = 5e-3
+SCRIPT_PEND = []
 
 
 def check_case(ctx, cfg, seed):
@@ -43,6 +44,9 @@ def check_case(ctx, cfg, seed):
     wcfg.world = cfg.world
     wcfg.describe = lambda: case
     kfacsim.oracle_trace(ctx, wcfg, rr, key_prefix='neox-ckpt-trace')
+    line = neoxsim.script_line(cfg, rr)
+    if line is not None:
+        SCRIPT_PEND.append((case, line, [neoxsim.impl_issues(rr, r) for r in range(cfg.world)]))
     W_ = cfg.world
     # who holds what: the truth is each layer's factors on its inverse worker at save time
     ci = next(i for i, o in enumerate(cfg.ops) if o in ('v', 'l1', 'l0'))
@@ -163,6 +167,9 @@ def check_rollback(ctx, cfg, seed):
         if cfg.mp > 1:
             return ctx.fail(f'roll-back run failed with model-parallel degree > 1: {f}', case, 'neox-resume-mp>1')
         return ctx.fail(f'roll-back run failed: {f}', case, 'neox-rollback-run-failed')
+    line = neoxsim.script_line(cfg, rr)
+    if line is not None:
+        SCRIPT_PEND.append((case, line, [neoxsim.impl_issues(rr, r) for r in range(cfg.world)]))
     W_ = cfg.world
     for i, op in enumerate(cfg.ops):
         if op in ('b', 'B'):
@@ -265,6 +272,10 @@ def run(ctx):
             # the same checkpoint object used for two roll-backs with training in between
             cfg.ops = ['f1', 's'] * a + ['k'] + ['f1', 's'] * b + ['B'] + ['f1', 's'] * b + ['B'] + ['f1', 's', 'v']
         check_rollback(ctx, cfg, ctx.seed * 419 + i)
+    # every rank's collectives of the whole history, checkpoint calls included (object gather, barriers), against the
+    # projection of the global script of M-NeoxScript
+    neoxsim.compare_script(ctx, SCRIPT_PEND)
+    del SCRIPT_PEND[:]
 
 
 def search(ctx):
